@@ -12,3 +12,10 @@ def num_roundtrip(x):
 def num_text_fixed_point(x):
     """re-saving a re-read number prints the same text"""
     return (my_math.numToStr(x), my_math.numToStr(utils.strToIntOrFloat(my_math.numToStr(x))))
+
+
+class Ref:
+    """stand-in for a reference tier in dejitter contracts: only its `timestamps` are used"""
+
+    def __init__(self, timestamps):
+        self.timestamps = timestamps
